@@ -180,6 +180,19 @@ CLAIMED.update({
    design="6 (C14)", technique="Coq proof (real analysis: trigonometric identities, Taylor bound of sin, monotonicity) + exact-rational correspondence on lattice inputs"),
 })
 
+CLAIMED.update({
+ "C09": dict(
+   text="Machine-checked Coq theorems over the reals, for every eye, non-zero direction d and up not parallel to d: Matrix3::look_to_rh / look_to_lh are orthonormal with determinant +1, send d to "
+        "(0,0,-|d|) resp. (0,0,+|d|) and up into the half-plane x = 0, y > 0; Matrix4::look_to_rh / look_to_lh are affine with that Matrix3 as rotation part and act as p -> R(p - eye), so the eye goes "
+        "to the origin; look_at_*(eye, center, up) = look_to_*(eye, center - eye, up), the left-handed constructors are the right-handed ones of the opposite direction, Rotation::look_at (Basis3, "
+        "Quaternion) is the left-handed one; Decomposed<Vector3, Basis3>::look_at_rh / look_at_lh / look_at have scale 1, the Matrix3 rotation of the same handedness and the same action on every point "
+        "as the Matrix4 of the same handedness; Matrix2/Basis2::look_at(d, up) has orthonormal columns, the first d/|d|, the second on the side of up. " + TIE +
+        "All 30 look_* entry points (including the Transform trait methods, the Quaternion and Decomposed variants and the deprecated aliases) are executed on directions in general position.",
+   note=NOTE + RAX + "Quaternion::look_at is by definition quat_of_m3(Matrix3::look_to_lh); that this conversion preserves an arbitrary rotation matrix is not proved (C05 proves it for matrices of unit "
+        "quaternions) — PARTIAL for the Quaternion / Decomposed<_, Quaternion> agreement clause, which is checked by the correspondence and an executed predicate.",
+   design="6 (C09)", technique="Coq proof (nsatz over R after eliminating the normalisations) + exact-rational correspondence on all entry points"),
+})
+
 def main():
     checks = []
     for pid in ALL:
